@@ -205,7 +205,8 @@ ASPECTS = [f'name:{k}' for k in KINDS] + ['set-identifier', 'header-id', 'ident:
 SHAPES = ['RPM\n', '\nRPM', 'RPM ', ' RPM', 'R.PM', 'rpm', 'RPM\r', 'R\tPM', 'RPM\n\n', 'R/PM', 'RPM\x00']
 SHAPED = ['name:channel', 'name:zone', 'set-identifier', 'header-id', 'ident:axis_id', 'ident:label']
 ASPECTS += [f'{a}|{i}' for a in SHAPED for i in range(len(SHAPES))]
-WHERE = ['inside', 'nested', 'outside', 'after-exception']
+# 'inside-after-outside-use': the same inputs were first used outside the mode in this process (accepted there)
+WHERE = ['inside', 'inside-after-outside-use', 'nested', 'outside', 'after-exception']
 # the object is created in one mode and the breaching value is assigned (through the public setters) in the other
 CROSS = ['cross:out-in', 'cross:in-out']
 LATER = {
@@ -429,6 +430,9 @@ def run_case(c):
     try:
         if where == 'inside':
             res, recs = run_inside(1)
+        elif where == 'inside-after-outside-use':
+            _with_logging(go)
+            res, recs = run_inside(1)
         elif where == 'nested':
             with high_compatibility_mode():
                 try:
@@ -453,7 +457,7 @@ def run_case(c):
         viol.append(("C17:flag:stuck-on", f"mode still on after all contexts were left | {c}"))
     raised = res['failed_at'] is not None or res['write'] != 'ok'
     why = (res['status'][-1] if res['failed_at'] is not None else res['write'])
-    inside = where in ('inside', 'nested')
+    inside = where in ('inside', 'nested', 'inside-after-outside-use')
     if inside:
         if breach and not raised:
             viol.append((f"C17:breach-accepted-inside:{aspect.split(':')[0]}", f"{aspect} accepted inside the mode ({where}) | {c}"))
